@@ -1,6 +1,7 @@
 """ Implements SmartSync, which only syncs files to local storage upon request """
 import time
 import logging
+import functools
 from dataclasses import dataclass
 from typing import Optional, Tuple, TYPE_CHECKING, Callable, List, Set, cast, Union
 
@@ -227,6 +228,15 @@ class SmartEventManager(EventManager):
                 event.path = state[self.side].path
 
 
+def _state_locked(func):
+    """Runs a SmartCloudSync method while holding the (re-entrant) sync state lock."""
+    @functools.wraps(func)
+    def wrap(self, *args, **kwargs):
+        with self.state.lock:
+            return func(self, *args, **kwargs)
+    return wrap
+
+
 class SmartCloudSync(CloudSync):
     """Class to add smart sync functionality to the CloudSync class"""
     def __init__(self,
@@ -333,6 +343,7 @@ class SmartCloudSync(CloudSync):
 
         return ent
 
+    @_state_locked
     def smart_unsync_oid(self, remote_oid):
         ent: SyncEntry = self.state.lookup_oid(REMOTE, remote_oid)
         if not ent:
@@ -341,6 +352,7 @@ class SmartCloudSync(CloudSync):
         ent = self.state.smart_unsync_oid(remote_oid)
         return ent[LOCAL].path
 
+    @_state_locked
     def smart_unsync_path(self, path, side):
         """Delete a file locally, but leave it in the cloud"""
         remote_path = self._ensure_path_remote(path, side)
@@ -370,6 +382,7 @@ class SmartCloudSync(CloudSync):
             ent[REMOTE].mark_changed()
             return self._sync_one_entry(ent)
 
+    @_state_locked
     def smart_sync_oid(self, remote_oid):
         ent: SyncEntry = self.state.smart_sync_oid(remote_oid)
         if not ent:
@@ -377,6 +390,7 @@ class SmartCloudSync(CloudSync):
         self._smart_sync_ent(ent)
         return ent[LOCAL].path
 
+    @_state_locked
     def smart_sync_path(self, path, side):
         remote_path = self._ensure_path_remote(path, side)
         try:
@@ -445,6 +459,7 @@ class SmartCloudSync(CloudSync):
                 return self._get_smartinfo(rent, None, local_path)
         return None
 
+    @_state_locked
     def smart_delete_path(self, local_oid, local_path):
         """smartsync aware path deletion"""
         remote_path = self.translate(REMOTE, local_path)
